@@ -16,6 +16,8 @@ DECIDED = [
     "DECL: the declaration is split on ' ', the name is split 0, each further split is divided at '=' into a two-slot list, the value is trimmed with a predicate that matches only the double quote; a trailing '/' marks an empty element; a failed split is an error",
     "NEST-TERMINATORS: the same-name nesting test accepts exactly the characters that can end a tag name in the declaration parser ('>', '/' and white space)",
     "BODY-VIEW: the body handed out starts at the node's body position, ends exactly where the closing tag that was found starts, and lies inside the node's body view, for all documents (NUM, under the document-only-shrinks invariant checked at the internal call sites)",
+    "ERR-CHECKED: no result of the parser's own fallible steps (skip to closing tag, declaration load, sibling step, traverse, as_body) is dropped inside xml_parser.c",
+    "LIMITS: the depth limit applied is the option's value or, when that is 0, the default constant, with no offset (NUM); the split scratch is one slot larger than the attribute array; the attribute loop starts at split 1, steps by one and is left only when the index reaches the number of splits",
     "plus C04's BOUND / PROGRESS / RECUR rules restricted to xml_parser.c",
 ]
 NOT_DECIDED = ["that names / attribute values / bodies equal the document's text beyond the delimiter structure (content)", "document order across callback programs as a run-time history"]
@@ -335,6 +337,131 @@ def body_view(R, P):
                 "the document/body invariant s_advance_to_closing_tag relies on does not hold at this call")
 
 
+def _discarded_calls(f, callees):
+    """calls whose value is dropped: a top-level CFG element that nothing refers to"""
+    refd = set()
+    for b in f.blocks.values():
+        for el in list(b.elems) + ([b.cond] if b.cond is not None else []):
+            for x in f.walk(el):
+                if x["k"] == "ref":
+                    refd.add(x["id"])
+    out = []
+    for b in f.blocks.values():
+        for el in b.elems:
+            if el["k"] == "call" and el.get("callee") in callees and el["id"] not in refd:
+                out.append(el)
+    return out
+
+
+def err_checked(R, P):
+    """ERR-CHECKED: the parser's own fallible steps (every int-returning function of xml_parser.c that can return non-zero)
+    never have their result dropped inside the parser: a failed step must stop the traversal, otherwise the callbacks
+    keep being fed from a position that was not advanced (an unclosed element is reported as if it had been closed)."""
+    fns = P.functions_in(FILE)
+    fallible = set()
+    for f in fns:
+        rt = f.rettype()
+        if rt.get("w") == 32 and not rt.get("u") and not rt.get("ptr"):
+            for r_ in f.returns():
+                v = RU.uncast(f, r_.node["a"][0]) if r_.node["a"] else None
+                if v is not None and (f.is_const(v) is None or f.is_const(v) != 0):
+                    fallible.add(f.name)
+    R.require({"s_advance_to_closing_tag", "s_load_node_decl", "aws_xml_node_traverse"} <= fallible, "fallible steps not found in %s (%s)" % (FILE, sorted(fallible)))
+    n = 0
+    for f in fns:
+        calls = [e for e in f.calls(fallible)]
+        n += len(calls)
+        for el in _discarded_calls(f, fallible):
+            R.fail("ERR-CHECKED", "%s->%s" % (f.name, el["callee"]), "%s:%d in %s()" % (FILE, el.get("loc", [0])[0], f.name),
+                   "the result of %s() is dropped: when it fails the document position has not moved and no error is recorded, yet the caller goes on reporting elements" % el["callee"])
+    R.check(n >= 5, "ERR-CHECKED", "all-fallible-steps-tested", FILE, "%d calls of %s: every result is tested, returned or stored" % (n, sorted(fallible)), "only %d calls of the parser's fallible steps found" % n)
+
+
+def limits(R, P):
+    """LIMITS: the two documented limits are applied as stated.
+    depth: the parser's max_depth is the option's value, or the default constant when the option is 0 - with no offset -
+           and traverse refuses when the callback-stack length has reached it (depth test in BALANCE);
+    attributes: the split scratch has one slot more than the attribute array (name + attributes), and the attribute loop
+           runs over every split after the name: at the loop's exit the index equals the number of splits (NUM)."""
+    f = P.fn("aws_xml_parse")
+    if not R.require(f is not None, "aws_xml_parse not found"):
+        return
+    R.fn(f)
+    num = Num(f, P, XmlHooks(), max_paths=4000)
+    cbs = [e for e in f.indirect_calls()] + [e for e in f.calls("aws_array_list_push_back")]
+    if R.require(bool(cbs), "aws_xml_parse: no call after the parser is set up"):
+        try:
+            sts = num.states_at({cbs[0].node["id"]})
+        except Limit as ex:
+            R.broken(str(ex))
+            sts = {}
+        gd = P.globals.get("s_max_document_depth") or {}
+        dflt = (gd.get("init") or {}).get("int") if isinstance(gd.get("init"), dict) else None
+        R.require(isinstance(dflt, int) and dflt > 0, "default depth limit s_max_document_depth not found as a constant")
+        ok, det, cnt = True, "", 0
+        for st in sts.get(cbs[0].node["id"], []):
+            md = [v for k, v in st.env.items() if k.endswith("parser.max_depth")]
+            opt = [v for k, v in st.env.items() if k.endswith(")->max_depth")]
+            cnt += 1
+            if len(md) != 1:
+                ok, det = False, "max_depth not tracked"
+                continue
+            v = md[0]
+            if v.is_const():
+                if not (opt and entails(st, opt[0]) and entails(st, -opt[0])):
+                    ok, det = False, "constant limit %r although the option is not zero" % v
+                elif v.cval() != dflt:
+                    ok, det = False, "limit %r when no limit is given, the default is %r" % (v.cval(), dflt)
+            elif not (opt and v == opt[0]):
+                ok, det = False, "parser.max_depth = %r, option = %s" % (v, opt)
+        R.check(ok and cnt >= 2, "LIMITS", "depth:limit-is-the-option-or-the-default", "%s:%d in aws_xml_parse()" % (FILE, f.line), "parser.max_depth is options->max_depth, or the default constant when that is 0, in all %d states" % cnt,
+                "the depth limit applied differs from the one requested (%s): documents one level deeper than the limit are accepted (or documents at the limit refused)" % det)
+    g = P.fn("s_load_node_decl")
+    rec = P.records.get("aws_xml_parser")
+    if R.require(g is not None and rec is not None, "s_load_node_decl / struct aws_xml_parser not found"):
+        sizes = {}
+        for fd in rec["fields"]:
+            t = rec["_unit"].types[fd["t"]]
+            if t.get("arr") is not None:
+                sizes[fd["n"]] = t["arr"]
+        R.check(sizes.get("split_scratch") == (sizes.get("attributes") or 0) + 1 and sizes.get("attributes"), "LIMITS", "attributes:scratch-is-name-plus-attributes", "struct aws_xml_parser",
+                "split_scratch[%s] = name + attributes[%s]" % (sizes.get("split_scratch"), sizes.get("attributes")), "the split scratch (%s) is not one slot larger than the attribute array (%s)" % (sizes.get("split_scratch"), sizes.get("attributes")))
+        R.fn(g)
+        # the attribute loop: every way out of it is `index < number of splits` being false, the index starts at 1 (split 0
+        # is the name) and steps by one
+        from sa.cfg import edges
+        loops = Num(g, P, None).loops()
+        cand = []
+        for h, body in loops.items():
+            B = g.blocks[h]
+            if B.cond is not None and "splits" in g.show(B.cond):
+                cand.append((h, body))
+        ok, det = len(cand) == 1, "attribute loop not found (%d candidates)" % len(cand)
+        if ok:
+            h, body = cand[0]
+            for b in body:
+                for s, cnd, pol in edges(g, b):
+                    if s in body:
+                        continue
+                    t = RU.cmp_norm(g, cnd, pol) if cnd is not None and isinstance(pol, bool) else None
+                    txt = (g.show(t[0]), t[1], g.show(t[2]) if t[2] is not None else None) if t else None
+                    if txt not in (("i", ">=", "splits.length"), ("i", ">=", "splits_count")):
+                        ok, det = False, "the loop is also left when %s" % (txt,)
+            steps = []
+            for b in body | {h}:
+                for el in g.blocks[b].elems:
+                    for x in g.walk(el):
+                        if x["k"] in ("un", "bin") and x.get("op") in ("++", "--", "pre++", "post++", "pre--", "post--", "+=", "-=", "=") and g.show(g.d(x["a"][0])) == "i":
+                            steps.append(x.get("op"))
+            if not (len(steps) == 1 and "++" in steps[0]):
+                ok, det = False, "index updates inside the loop: %s" % steps
+            inits = [v for e in g.all_events() if e.kind == "decl" for v in e.node["vars"] if v["n"] == "i"]
+            if not (len(inits) == 1 and inits[0].get("init") is not None and g.is_const(inits[0]["init"]) == 1):
+                ok, det = False, "the index does not start at 1"
+        R.check(ok, "LIMITS", "attributes:every-split-becomes-an-attribute", "%s in s_load_node_decl()" % FILE, "the attribute loop runs over splits 1 .. count-1 and is left only when the index reaches the count",
+                "the attribute loop does not visit every split after the name (%s): an element with the maximum number of attributes loses its last one" % det)
+
+
 def analyse(ctx, replace=None, only=None):
     R = ctx.R
     units = [u for u in library_units(ctx.ex.repo) if "external" not in u]
@@ -357,9 +484,17 @@ def analyse(ctx, replace=None, only=None):
         terminators(R, P)
     if on("BODY-VIEW"):
         body_view(R, P)
+    if on("ERR-CHECKED"):
+        err_checked(R, P)
+    if on("LIMITS"):
+        limits(R, P)
 
 
 MUTANTS = [
+    {"name": "skip-failure-ignored", "file": FILE, "expect": "ERR-CHECKED", "old": "            if (s_advance_to_closing_tag(parser, &next_node, NULL)) {\n                goto error;\n            }\n        }\n    }\n\n    aws_array_list_pop_back(&parser->callback_stack);",
+     "new": "            s_advance_to_closing_tag(parser, &next_node, NULL);\n        }\n    }\n\n    aws_array_list_pop_back(&parser->callback_stack);"},
+    {"name": "tenth-attribute-dropped", "file": FILE, "expect": "LIMITS", "old": "        for (size_t i = 1; i < splits.length; ++i) {", "new": "        for (size_t i = 1; i < splits.length && i < AWS_ARRAY_SIZE(parser->attributes); ++i) {"},
+    {"name": "depth-limit-plus-one", "file": FILE, "expect": "LIMITS", "old": "        .max_depth = options->max_depth ? options->max_depth : s_max_document_depth,", "new": "        .max_depth = (options->max_depth ? options->max_depth : s_max_document_depth) + 1,"},
     {"name": "pop-only-on-error", "file": FILE, "expect": "BALANCE", "old": "    aws_array_list_pop_back(&parser->callback_stack);\n    return parser->error;\n\nerror:\n    parser->error = AWS_OP_ERR;", "new": "    return parser->error;\n\nerror:\n    aws_array_list_pop_back(&parser->callback_stack);\n    parser->error = AWS_OP_ERR;"},
     {"name": "skip-unconditional", "file": FILE, "expect": "SKIP", "old": "        if (!next_node.processed) {\n            if (s_advance_to_closing_tag(parser, &next_node, NULL)) {", "new": "        if (next_node.processed) {\n            if (s_advance_to_closing_tag(parser, &next_node, NULL)) {"},
     {"name": "callback-before-load", "file": FILE, "expect": "ONCE", "old": "        if (s_load_node_decl(parser, &decl_body, &next_node)) {\n            return AWS_OP_ERR;\n        }\n\n        if (on_node_encountered(&next_node, user_data)) {\n            goto error;\n        }", "new": "        if (on_node_encountered(&next_node, user_data)) {\n            goto error;\n        }\n\n        if (s_load_node_decl(parser, &decl_body, &next_node)) {\n            return AWS_OP_ERR;\n        }"},
